@@ -37,6 +37,10 @@ XTYPE = [1, 1.0, True, 0, 0.0, -0.0, False, 7, 7.0, ['dec', '2.5'], ['dec', '2.5
          2 ** 53 + 1, 9007199254740992.0, 2 ** 53, 1700000000000000001, 1.7e18]      # int / float neighbours that differ exactly, not as doubles
 
 
+# the int / float neighbours on their own: every adjacent pair in a sequence drawn from this pool is of that kind
+NEIGH = [2 ** 53 + 1, 9007199254740992.0, 2 ** 53, 1700000000000000001, 1.7e18, 1700000000000000000]
+
+
 def strict(a, b):
     """the very same value: same type, same sign of zero, same representation (Decimal('2.5') vs Decimal('2.50'))"""
     if type(a) is not type(b):
@@ -233,8 +237,9 @@ def big_batch_enum():
 
 @st.composite
 def seq_case(draw):
-    op = draw(st.sampled_from(OPS))
-    pool = [VALUES, VALUES, VALUES, NUMERIC, XTYPE, RECS][draw(st.integers(0, 5))]
+    # the three operators that COMPARE items are 3 of ~70 parameterisations: every fourth case is one of them
+    op = draw(st.sampled_from(OPS)) if draw(st.integers(0, 3)) else draw(st.sampled_from([['duc'], ['distinct'], ['distinct_km'], ['duc']]))
+    pool = [VALUES, VALUES, VALUES, NUMERIC, XTYPE, RECS, NEIGH][draw(st.integers(0, 6))]
     xs = draw(st.lists(st.sampled_from(pool), min_size=draw(st.sampled_from([0, 0, 2, 5])), max_size=12))
     return {'op': op, 'xs': xs}
 
@@ -271,7 +276,7 @@ def keyed_case(draw):
     if draw(st.booleans()):
         nk = draw(st.integers(1, 4))
         ks = draw(st.lists(st.integers(0, nk - 1), min_size=draw(st.sampled_from([1, 4, 8])), max_size=18))
-        vals = draw(st.lists(st.sampled_from([VALUES, VALUES, VALUES, NUMERIC, XTYPE, RECS][draw(st.integers(0, 5))]), min_size=len(ks), max_size=len(ks)))
+        vals = draw(st.lists(st.sampled_from([VALUES, VALUES, VALUES, NUMERIC, XTYPE, RECS, NEIGH][draw(st.integers(0, 6))]), min_size=len(ks), max_size=len(ks)))
         return {'op': op, 'driver': 'grouped', 'items': [[k, v] for k, v in zip(ks, vals)]}
     nl = draw(st.integers(1, 6))
     lifetimes = [[draw(st.sampled_from(c02.SLOTS)), draw(st.lists(st.sampled_from(VALUES), max_size=7))] for _ in range(nl)]
